@@ -110,11 +110,21 @@ def r7_forwarding(rep, facts, rid='C07/R7', traits=(sm.SER,)):
 
 def r3_promotion(rep, facts):
     R = rep.rule('C07/R3', 'formatting visitors promote inline tables / arrays to [table] / [[table]] only outside values: in every override of '
-                 'VisitMut::visit_item_mut the promotion is guarded by the "parent is a value" flag, the flag is set from the node and restored after the recursion', floor=8)
+                 'VisitMut::visit_item_mut the promotion is guarded by the "parent is a value" flag, the flag is set from the node and restored after the recursion', floor=2)
     ovs = sm.visitor_overrides(facts)
     rep.check(R, 'overrides', len(ovs) >= 1, f'{[o[0] for o in ovs]}', 'no override of visit_item_mut found')
     sums = {}
     for ty, d in ovs:
+        # decided by running the visitor over a model table in the evaluator where that can be done (however the "below a value" state is kept: a flag, an enum, a
+        # helper function); the reading of the guard and of the flag protocol further down is the fallback
+        from .den import Unanalysable as _Un, EvalPanic as _Ep
+        try:
+            complaints = promotion_model(facts, ty)
+            rep.check(R, f'{ty}|promotion on the model table', not complaints, 'promotes the inline table and the array of inline tables outside values (recursively), leaves everything below a value '
+                      'inline, keeps the content, and still promotes what follows', f'`{ty}` run over the model table: ' + '; '.join(complaints[:2]), facts.loc(facts.body(d)))
+            continue
+        except (_Un, _Ep, TypeError, KeyError, IndexError, AttributeError, ValueError):
+            pass
         s = sm.promotion_summary(facts, d)
         b = s['body']
         sums[ty] = s
@@ -392,3 +402,83 @@ def _witnesses(rep):
 
 def run(tier):
     return run_property(PROP, tier, rules, configs_thorough=['default', 'perf', 'preserve_order', 'toml_display', 'edit_display_serde'], extra=_witnesses if tier == 'thorough' else None)
+
+
+def promotion_model(facts, ty):
+    """the formatting visitor `ty` (a VisitMut impl) run over a model table in the evaluator; returns a list of complaints (empty: it promotes exactly what may be promoted)
+    or raises Unanalysable.  The table holds an inline table with a nested one, an array of inline tables, a mixed array holding an inline table that holds another, an array of
+    arrays of inline tables, and one more inline table after them."""
+    from .den import Evaluator, Unanalysable
+    from .places import PlaceInterp, deref, keyname
+    from .rules_print import table_model, T, IT, logical
+    from .rules_events import plain_table
+    I = 'toml_edit::item::Item::'
+    base = strip_generics(ty).split('<')[0]
+
+    class FmtWalk(PlaceInterp):
+        MAX_DEPTH = 120
+
+        def _mcall(self, e, env):
+            name = e.get('name') or ''
+            if name.startswith('visit_') and name.endswith('_mut'):
+                raw = self.val(e['recv'], env)
+                recv = deref(raw)
+                if isinstance(recv, tuple) and len(recv) == 3 and recv[0] == 'struct' and recv[1] == base:
+                    args = [self.val(a, env) for a in e.get('args', [])]
+                    ov = [it_['def'] for imp in self.ev.facts.impls if (imp.get('trait') or '').endswith('visit_mut::VisitMut') and strip_generics(imp.get('self_ty') or '').split('<')[0] == base
+                          for it_ in imp['items'] if it_['name'] == name and self.ev.facts.has_body(it_['def'])]
+                    d = ov[0] if ov else f'toml_edit::visit_mut::{name}'
+                    if not self.ev.facts.has_body(d):
+                        raise Unanalysable(f'walker `{d}` not found')
+                    return self.apply_fn(self.ev.facts.body(d), [recv] + args)
+            if self._workspace_method(e) is None and name in ('iter', 'iter_mut', 'is_empty', 'len'):
+                recv = self.val(e['recv'], env)
+                t = self.type_of(recv)
+                for imp in self.ev.facts.impls:
+                    if (imp.get('trait') or '').endswith('TableLike') and (imp.get('self_ty') or '').split('<')[0] == t:
+                        for it_ in imp['items']:
+                            if it_['name'] == name and self.ev.facts.has_body(it_['def']):
+                                return self.apply_fn(self.ev.facts.body(it_['def']), [recv] + [self.val(a, env) for a in e.get('args', [])])
+            return super()._mcall(e, env)
+    desc = T({'t': IT({'a': 1, 'n': IT({'b': 2})}), 'aoi': [IT({'x': 1}), IT({'x': 2})], 'mixed': [1, IT({'c': IT({'d': 1})})], 'nested': [[IT({'e': 1})]], 'after': IT({'z': 1}), 'v': 7})
+    root = table_model(desc)
+    w = FmtWalk(Evaluator(facts))
+    visitor = w._default_of(base)
+    if not (isinstance(visitor, tuple) and len(visitor) == 3 and visitor[0] == 'struct'):
+        raise Unanalysable(f'no default instance of `{base}`')
+    w.apply_fn(facts.body(f'toml_edit::visit_mut::visit_table_mut') if not facts.has_method('toml_edit::visit_mut::VisitMut', ty, 'visit_table_mut') else
+               facts.body(facts.method('toml_edit::visit_mut::VisitMut', ty, 'visit_table_mut')), [visitor, root])
+    out = []
+    if plain_table(root) != logical(desc):
+        out.append(f'the content changed: {plain_table(root)!r:.200} instead of {logical(desc)!r:.200}')
+    kinds = {keyname(k): deref(v)[1].rsplit('::', 1)[-1] for k, v in deref(root[2]['items']).pairs}
+    want = {'t': 'Table', 'aoi': 'ArrayOfTables', 'mixed': 'Value', 'nested': 'Value', 'after': 'Table', 'v': 'Value'}
+    if kinds != want:
+        out.append(f'at the top level the entries are {kinds}, expected {want} (an inline table / an array of inline tables outside a value becomes a [table] / [[table]], everything else stays)')
+
+    def below_value(v, inside, path):
+        v = deref(v)
+        if isinstance(v, tuple) and len(v) == 3 and v[0] == 'ctor':
+            nm = v[1]
+            if nm in (I + 'Table', I + 'ArrayOfTables') and inside:
+                out.append(f'`{path}` is a {nm.rsplit("::", 1)[-1]} inside a value: the printer does not print it (`{{}}` is printed instead)')
+            for x in v[2]:
+                below_value(x, inside or nm == I + 'Value', path)
+        elif isinstance(v, tuple) and len(v) == 3 and v[0] == 'struct' and isinstance(v[2], dict):
+            items = deref(v[2].get('items')) if 'items' in v[2] else None
+            if items is not None:
+                for k, x in items.pairs:
+                    below_value(x, inside, f'{path}.{keyname(k)}' if path else keyname(k))
+            vals = deref(v[2].get('values')) if 'values' in v[2] else None
+            if vals is not None:
+                for i, x in enumerate(vals.items):
+                    below_value(x, inside, f'{path}[{i}]')
+            for fk in ('value',):
+                pass
+    below_value(('ctor', I + 'Table', (root,)), False, '')
+    t_ = deref(deref(root[2]['items']).pairs[0][1])
+    if t_[1] == I + 'Table':
+        inner = {keyname(k): deref(v)[1].rsplit('::', 1)[-1] for k, v in deref(deref(t_[2][0])[2]['items']).pairs}
+        if inner.get('n') != 'Table':
+            out.append(f'the inline table nested in the promoted table `t` stays {inner.get("n")} (expected a [t.n] table)')
+    return out
